@@ -602,6 +602,14 @@ def generate(prop, seed, tier, weights, n_ops=(4, 14), n_incompat_max=2, with_dv
                  ['fix', b, u, None], ['decode', v, False], ['decode', v, True], ['free', b, 'exact']]
         at = orng.randint(0, len(ops))
         ops[at:at] = motif
+    if 'fix' in weights and 'pickle' in weights and orng.random() < 0.12:
+        # directed motif: cached queries, a pickle round trip (restart from durable state), then a fix on the restored
+        # processor and the same queries again - whatever was cached before the round trip must not survive the fix
+        u = [round(orng.random(), 4) for _ in range(8)]
+        motif = [['n_valid', True, False], ['enumerate', True], ['stats'], ['pickle'], ['fix', orng.randrange(64), u, None],
+                 ['enumerate', True], ['n_valid', True, False], ['stats']]
+        at = orng.randint(0, len(ops))
+        ops[at:at] = motif
     return {'property': prop, 'engine': ENGINE, 'seed': seed, 'spec': spec, 'ops': ops,
             'ids_seed': s.int_seed('ids'), 'twin_ids_seed': s.int_seed('ids-twin'), 'env_seed': s.int_seed('env'),
             'encoder': None}
